@@ -46,7 +46,7 @@ func c04Chains() []c04Chain {
 			sb := sb
 			out = append(out, c04Chain{"batch/" + era.Name + "/" + sb.name, era, func(b *drive.Builder) {
 				FundStd(b)
-				b.Add(drive.BlockSpec{Rates: R1(), OPRPayTo: kit.AddrStr(KM), TX: []fake.Entry{b.Tx(KA, sb.txs...)}})
+				b.Add(drive.BlockSpec{Rates: R1(), OPRPayTo: kit.AddrStr(KM), TX: []fake.Entry{sb.entry(b)}})
 				b.Add(drive.BlockSpec{Rates: R2(), OPRPayTo: kit.AddrStr(KM)})
 				b.Add(drive.BlockSpec{Rates: R1(), OPRPayTo: kit.AddrStr(KM)})
 			}})
@@ -139,6 +139,21 @@ func c04Run(c *core.Ctx, r *core.Result, ch c04Chain) {
 			k := hex.EncodeToString(eh[:])
 			if _, dup := entries[k]; !dup {
 				entries[k] = entryAt{e, h}
+			}
+		}
+	}
+	if strings.Contains(ch.name, "/chained-self") {
+		// non-vacuity: a chained batch must really be accepted on the unchanged tree
+		for ehx, ea := range entries {
+			if ea.h == era.Base+5 && len(final.Batches[ehx]) > 0 {
+				switch x := final.Batches[ehx][0].Executed; {
+				case x > 0:
+					r.Outcome("chained-batch:executed")
+				case x < 0:
+					r.Outcome("chained-batch:rejected")
+				default:
+					r.Outcome("chained-batch:pending")
+				}
 			}
 		}
 	}
